@@ -322,6 +322,24 @@ def laws(drv, ev, parts, body):
             if multiset(r1) != multiset(r2) or multiset(r1) != multiset(r3):
                 ev.violations.append({"property": PID, "query": "%s %s**" % (pre, b), "reason": "E** or E+* differs from E*",
                                       "signature": "C10:law**:" + pre + b})
+        # the empty expression is the identity, also inside the body of a closure and next to another closure:
+        # (E* ())+ = (E*)+ = E*,  (E+ ())* = E*,  (E ())+ = E+  (a rewrite of the tree must not change which it is)
+        good = lambda r: "res" in r and r.get("end") and "error" not in r
+        for ref, variants in (("%s*", ["(%s* ())+", "(() %s*)+", "(%s* () ())+", "(%s+ ())*", "(() %s+)*", "(%s ())*", "(%s* ())*", "((%s*) ())+"]),
+                              ("%s+", ["(%s ())+", "(() %s)+", "(%s+ ())+", "(() %s+ ())+"])):
+            rr = run("%s %s" % (pre, ref % b))
+            if not good(rr):
+                continue
+            for v in variants:
+                rv = run("%s %s" % (pre, v % b))
+                if not good(rv):
+                    continue
+                ev.case(key=("law()", pre, b, v), nontrivial=len(rr["res"]) > 1)
+                ev.label("law:closure-with-empty-expression")
+                if multiset(rv) != multiset(rr):
+                    ev.violations.append({"property": PID, "query": "%s %s" % (pre, v % b), "signature": "C10:law():" + v + pre + b,
+                                          "reason": "%s differs from %s: only the former %r, only the latter %r"
+                                          % (v % "E", ref % "E", list((multiset(rv) - multiset(rr)).elements())[:3], list((multiset(rr) - multiset(rv)).elements())[:3])})
     except (DriverCrash, DriverTimeout) as e:
         ev.violations.append({"property": PID, "query": pre + " " + b, "reason": "law check crashed or hung: " + str(e)[-2000:],
                               "signature": "C10:lawcrash:" + pre + b})
